@@ -210,7 +210,15 @@ static sqf::runtime::runtime::result execute_do(sqf::runtime::runtime& runtime, 
 #endif // DF__SQF_RUNTIME__ASSEMBLY_DEBUG_ON_EXECUTE
 
 
+#ifdef SQFVM_RUNTIME_VERIF
+        // keep the instruction alive; the frame owning it may be gone after execute
+        sqf::runtime::instruction::sptr verif_instruction = *instruction;
+        if (sqf::verif::g_hooks.instruction) { sqf::verif::g_hooks.instruction(sqf::verif::g_hooks.ud, runtime, verif_instruction.get(), 0); }
+#endif // SQFVM_RUNTIME_VERIF
         (*instruction)->execute(runtime);
+#ifdef SQFVM_RUNTIME_VERIF
+        if (sqf::verif::g_hooks.instruction) { sqf::verif::g_hooks.instruction(sqf::verif::g_hooks.ud, runtime, verif_instruction.get(), 1); }
+#endif // SQFVM_RUNTIME_VERIF
 
 
         if (!runtime_error)
@@ -333,6 +341,9 @@ sqf::runtime::runtime::result sqf::runtime::runtime::execute(sqf::runtime::runti
                 for (size_t i = 0; i < m_contexts.size(); i++)
                 {
                     m_context_active = m_contexts[i];
+#ifdef SQFVM_RUNTIME_VERIF
+                    if (sqf::verif::g_hooks.slice_begin) { sqf::verif::g_hooks.slice_begin(sqf::verif::g_hooks.ud, *this, i); }
+#endif // SQFVM_RUNTIME_VERIF
                     if (m_context_active->suspended())
                     {
 #ifdef SQFVM_RUNTIME_VERIF
